@@ -46,7 +46,11 @@ def merge(acc, r):
     acc["violations"].extend(r.get("violations", []))
     acc["harness_errors"].extend(r.get("harness_errors", []))
     for s in r.get("samples", []):
-        if len(acc["samples"]) < 12:
+        # keep a varied set: at most 2 samples per kind of obligation, at most 24 in total
+        kind = str(s.get("obligation") or s.get("harness") or s.get("function") or "")[:60] if isinstance(s, dict) else ""
+        cnt = acc.setdefault("_sample_kinds", {})
+        if cnt.get(kind, 0) < 2 and len(acc["samples"]) < 24:
+            cnt[kind] = cnt.get(kind, 0) + 1
             acc["samples"].append(s)
     for f in r.get("functions", []):
         if f not in acc["functions"]:
@@ -158,7 +162,7 @@ def write_evidence(pid, tier, seed, level, acc, wall, rule, assumptions, bounds,
         "evaluations": max(1, acc["evaluations"]),
         "distinct_nontrivial": acc["nontrivial"],
         "rule": rule,
-        "samples": acc["samples"][:12] or ["(no sample recorded)"],
+        "samples": acc["samples"][:24] or ["(no sample recorded)"],
         "obligations": acc["obligations"],
         "discharged": acc["discharged"],
         "inconclusive": acc["inconclusive"],
